@@ -137,6 +137,7 @@ struct IntTr {
   static constexpr bool RAW = true;  // model values can be handed to the container directly
   static constexpr bool MEM = false; // elements own memory of the resource
   static constexpr bool HAS_EQ = true;
+  static constexpr bool TWO_ARGS = false;
 };
 
 std::string gen_string(vfz::Dec& d) {
@@ -167,6 +168,12 @@ struct StrTr {
   static constexpr bool RAW = true;
   static constexpr bool MEM = true;
   static constexpr bool HAS_EQ = true;
+  static constexpr bool TWO_ARGS = true;  // (count, char): std::basic_string::assign(n, c) on a reused slot
+  static M make2(unsigned a, unsigned b) { return M((size_t)a, (char)('a' + b)); }
+  template <class V>
+  static void emplace2_back(V& v, unsigned a, unsigned b) { v.emplace_back((size_t)a, (char)('a' + b)); }
+  template <class V, class It>
+  static auto emplace2(V& v, It pos, unsigned a, unsigned b) { return v.emplace(pos, (size_t)a, (char)('a' + b)); }
 };
 
 struct NestTr {
@@ -204,6 +211,7 @@ struct NestTr {
   static constexpr bool RAW = false;
   static constexpr bool MEM = true;
   static constexpr bool HAS_EQ = true;
+  static constexpr bool TWO_ARGS = false;
 };
 
 struct ElemTr {
@@ -223,6 +231,12 @@ struct ElemTr {
   static constexpr bool RAW = true;
   static constexpr bool MEM = false;
   static constexpr bool HAS_EQ = true;
+  static constexpr bool TWO_ARGS = true;  // Elem(int, int): no assign(a, b), so a reused slot is destroyed and constructed again
+  static M make2(unsigned a, unsigned b) { return (int)(a * 1000 + b); }
+  template <class V>
+  static void emplace2_back(V& v, unsigned a, unsigned b) { v.emplace_back((int)a, (int)b); }
+  template <class V, class It>
+  static auto emplace2(V& v, It pos, unsigned a, unsigned b) { return v.emplace(pos, (int)a, (int)b); }
 };
 
 // protobuf message elements live on the arena view of a SwissMemoryResource
@@ -274,7 +288,26 @@ struct ProtoTr {
   static constexpr bool RAW = false;
   static constexpr bool MEM = true;
   static constexpr bool HAS_EQ = false;
+  static constexpr bool TWO_ARGS = false;
 };
+
+// F8 (known finding, reported by this target): ReusableVector does not support a value argument that refers to an
+// element of the destination vector. std::vector guarantees v.push_back(v[i]) / v.insert(pos, v[i]) / insert(pos, n, v[i]);
+// ReusableVector relocates (reserve) or shifts (prepare_for_insert) first and reads the argument afterwards, so a
+// moved-from / shifted element is copied (observed: push_back(v[0]) at capacity appends an empty string). The shape is
+// exactly: push_back/insert/insert(n) whose value is a reference into the same vector. Excluded unless VF_ALLOW_KNOWN=1.
+bool g_excluded_f8 = false;
+bool known_f8_value_argument_aliases_destination() {
+  static int allow = -1;
+  if (allow < 0) {
+    const char* e = getenv("VF_ALLOW_KNOWN");
+    allow = (e && *e && *e != '0') ? 1 : 0;
+  }
+  if (allow == 1) return false;
+  if (!g_excluded_f8) vfz::label("excluded_known_f8");
+  g_excluded_f8 = true;
+  return true;
+}
 
 // ---------------------------------------------------------------------------------------------
 template <class Tr>
@@ -444,7 +477,47 @@ struct Runner {
       Vec& x = *v[k];
       Model& m = model[k];
       unsigned form = d.u8();
-      if (op < 8) {
+      if (op < 8 && form % 16 == 14 && !m.empty()) {
+        // the value argument is an element of the destination itself: legal for std::vector (push_back(v[i]), insert(pos, v[i]))
+        size_t src = d.u8() % m.size();
+        size_t pos = d.u8() % (m.size() + 1);
+        unsigned which = d.u8() % 3;
+        if (known_f8_value_argument_aliases_destination()) continue;
+        note("v%d.%s(aliased v%d[%zu], pos %zu)", k, which == 0 ? "push_back" : which == 1 ? "insert" : "insert_n", k, src, pos);
+        M val = m[src];
+        const Vec& cx = x;
+        if (which == 0) {
+          x.push_back(cx[src]);
+          m.push_back(val);
+        } else if (which == 1) {
+          x.insert(x.cbegin() + pos, cx[src]);
+          m.insert(m.begin() + (long)pos, val);
+        } else {
+          x.insert(x.cbegin() + pos, (size_t)2, cx[src]);
+          m.insert(m.begin() + (long)pos, (size_t)2, val);
+        }
+        vfz::label("aliased_value_argument");
+        check(k, "an insertion whose value argument is an element of the same vector");
+      } else if (op < 8 && Tr::TWO_ARGS && form % 16 == 15) {
+        // multi-argument emplace: in-place construction / assign(args...) / destroy+construct on a reused slot
+        size_t pos = d.u8() % (m.size() + 1);
+        unsigned a = d.u8() % 20, bb = d.u8() % 26;
+        bool at_end = d.u8() & 1;
+        note("v%d.emplace%s(%zu; %u,%u)", k, at_end ? "_back" : "", pos, a, bb);
+        classify_insert(x, 1);
+        if constexpr (Tr::TWO_ARGS) {
+          if (at_end) {
+            Tr::emplace2_back(x, a, bb);
+            m.push_back(Tr::make2(a, bb));
+          } else {
+            auto it = Tr::emplace2(x, x.cbegin() + pos, a, bb);
+            m.insert(m.begin() + (long)pos, Tr::make2(a, bb));
+            if (it != x.begin() + pos) failc("emplace(pos,a,b) returned an iterator to index %ld, expected %zu", (long)(it - x.begin()), pos);
+          }
+        }
+        vfz::label("emplace_two_args");
+        check(k, "emplace(args...)");
+      } else if (op < 8) {
         M val = Tr::gen(d);
         note("v%d.push_back/%u(%s)", k, form % 8, Tr::show(val).c_str());
         classify_insert(x, 1);
@@ -771,11 +844,22 @@ void run_typed(vfz::Dec& d, std::string& desc, bool& nt) {
 
 }  // namespace
 
+// ASan / UBSan reports do not pass through vfz::fail: print the decoded case next to them
+extern "C" void __asan_set_error_report_callback(void (*)(const char*));
+static void vf_print_case_on_report(const char*) {
+  if (g_desc) fprintf(stderr, "CASE: %s\n", g_desc->c_str());
+}
+extern "C" int LLVMFuzzerInitialize(int*, char***) {
+  __asan_set_error_report_callback(&vf_print_case_on_report);
+  return 0;
+}
+
 extern "C" int LLVMFuzzerTestOneInput(const uint8_t* data, size_t size) {
   vfz::begin_case(RULE);
   vfz::Dec d(data, size);
   std::string desc;
   g_desc = &desc;
+  g_excluded_f8 = false;
   bool nt = false;
   unsigned ty = d.u8() % 8;
   switch (ty) {
